@@ -2,11 +2,27 @@
 (***************************************************************************)
 (* Module initialisation order (property C16).                             *)
 (*                                                                         *)
-(* INPUT   = a digraph `orig` over the libraries 1..n of one module        *)
-(*           (edge a -> b: a class of library a derives from, or is a      *)
-(*           typedef of, a class of library b).  Numeric order of the      *)
-(*           nodes = std::string order of the library names, which is the  *)
-(*           iteration order of the std::map / std::set the code uses.     *)
+(* INPUT   = the libraries 1..n whose databases are given, each of a KIND  *)
+(*             "both"  publishes classes (with their methods),             *)
+(*             "funcs" publishes only free functions (no type at all),     *)
+(*             "types" publishes only types without any function (enums),  *)
+(*             "empty" publishes nothing,                                  *)
+(*           and a digraph `orig` over them (edge a -> b: a class of       *)
+(*           library a derives from, or is a typedef of, a class of        *)
+(*           library b; so edges only join libraries of kind "both").      *)
+(*           Numeric order = std::string order of the library names, which *)
+(*           is the iteration order of the std::map / std::set the code    *)
+(*           uses.  A library CONTRIBUTES to the module iff its kind is    *)
+(*           not "empty"; the property speaks about exactly those.         *)
+(* KEYS    = the keys of `dependencies` as the two loops at the top of     *)
+(*           write_python_table_native collect them:                       *)
+(*             for every function: if it has a library name -> a key       *)
+(*               (no module filter: the code has it commented out)         *)
+(*             for every global type of THIS module with a library name    *)
+(*               -> a key, plus its cross-library base/typedef edges       *)
+(*           KeysAreContributors says the two loops find every             *)
+(*           contributing library - in particular a function-only one,     *)
+(*           which no type ever mentions - and nothing else.               *)
 (* MECHANISM = write_python_table_native() in interrogate_module.cxx,      *)
 (*           transcribed statement by statement as a step machine:         *)
 (*                                                                         *)
@@ -45,6 +61,7 @@
 EXTENDS Naturals, Sequences, FiniteSets, TLC
 
 VARIABLES
+  kind,       \* the input: [1..n -> {"both", "funcs", "types", "empty"}]
   orig,       \* the input digraph: [1..n -> SUBSET 1..n]
   deps,       \* `dependencies` (edges still present)
   placed,     \* `libraries`
@@ -54,19 +71,34 @@ VARIABLES
   cycles,     \* history: the cycles printed, in order
   nreports    \* history: how often "Circular dependency ..." was printed
 
-vars == <<orig, deps, placed, pc, idx, addedAny, broken, cycles, nreports>>
+vars == <<kind, orig, deps, placed, pc, idx, addedAny, broken, cycles, nreports>>
 
-Libs == DOMAIN orig
+Kinds == {"both", "funcs", "types", "empty"}
+AllLibs == DOMAIN kind
+HasFunctions(l) == kind[l] \in {"both", "funcs"}
+HasTypes(l) == kind[l] \in {"both", "types"}
+Contributing == {l \in AllLibs : kind[l] # "empty"}
+\* the two loops that fill `dependencies`
+FunctionLoopKeys == {l \in AllLibs : HasFunctions(l)}
+TypeLoopKeys == {l \in AllLibs : HasTypes(l)}
+Libs == FunctionLoopKeys \cup TypeLoopKeys          \* the keys of `dependencies`
 N == Cardinality(Libs)
 
 Range(s) == {s[i] : i \in 1..Len(s)}
 Pos(s, x) == CHOOSE i \in 1..Len(s) : s[i] = x
 Min(S) == CHOOSE x \in S : \A y \in S : x <= y
 
-Graphs(n) == {g \in [1..n -> SUBSET (1..n)] : \A l \in 1..n : l \notin g[l]}
+\* the keys in map order; Lib(i) = the key the map iterator stands on in its i-th step
+RECURSIVE Sorted(_)
+Sorted(S) == IF S = {} THEN <<>> ELSE <<Min(S)>> \o Sorted(S \ {Min(S)})
+Lib(i) == Sorted(Libs)[i]
 
-InitWith(g) ==
-  /\ orig = g /\ deps = g /\ placed = <<>> /\ pc = "start" /\ idx = 1
+Graphs(n) == {g \in [1..n -> SUBSET (1..n)] : \A l \in 1..n : l \notin g[l]}
+\* edges need a class at both ends
+WellFormed(k, g) == \A a \in DOMAIN g : \A b \in g[a] : k[a] = "both" /\ k[b] = "both"
+
+InitWith(k, g) ==
+  /\ kind = k /\ orig = g /\ deps = g /\ placed = <<>> /\ pc = "start" /\ idx = 1
   /\ addedAny = FALSE /\ broken = {} /\ cycles = <<>> /\ nreports = 0
 
 ---------------------------------------------------------------------------
@@ -84,40 +116,42 @@ DFS(d, path, todo) ==
 StartPass ==
   /\ pc = "start" /\ Len(placed) < N
   /\ pc' = "visit" /\ idx' = 1 /\ addedAny' = FALSE
-  /\ UNCHANGED <<orig, deps, placed, broken, cycles, nreports>>
+  /\ UNCHANGED <<kind, orig, deps, placed, broken, cycles, nreports>>
 
 Visit ==
   /\ pc = "visit" /\ idx <= N
-  /\ LET d == deps[idx] \ Range(placed) IN
-       /\ deps' = [deps EXCEPT ![idx] = d]
-       /\ IF d = {} /\ idx \notin Range(placed)
-            THEN placed' = Append(placed, idx) /\ addedAny' = TRUE
+  /\ LET lib == Lib(idx)
+         d == deps[lib] \ Range(placed) IN
+       /\ deps' = [deps EXCEPT ![lib] = d]
+       /\ IF d = {} /\ lib \notin Range(placed)
+            THEN placed' = Append(placed, lib) /\ addedAny' = TRUE
             ELSE UNCHANGED <<placed, addedAny>>
   /\ idx' = idx + 1
-  /\ UNCHANGED <<orig, pc, broken, cycles, nreports>>
+  /\ UNCHANGED <<kind, orig, pc, broken, cycles, nreports>>
 
 EndPass ==
   /\ pc = "visit" /\ idx > N
   /\ IF addedAny
        THEN pc' = "start" /\ UNCHANGED <<idx, nreports>>
        ELSE pc' = "break" /\ idx' = 1 /\ nreports' = nreports + 1
-  /\ UNCHANGED <<orig, deps, placed, addedAny, broken, cycles>>
+  /\ UNCHANGED <<kind, orig, deps, placed, addedAny, broken, cycles>>
 
 Break ==
   /\ pc = "break" /\ idx <= N
-  /\ LET c == IF deps[idx] = {} THEN <<>> ELSE DFS(deps, <<idx>>, deps[idx]) IN
+  /\ LET lib == Lib(idx)
+         c == IF deps[lib] = {} THEN <<>> ELSE DFS(deps, <<lib>>, deps[lib]) IN
        IF c = <<>>
          THEN UNCHANGED <<deps, broken, cycles>>
          ELSE /\ deps' = [deps EXCEPT ![c[1]] = @ \ {c[2]}]
               /\ broken' = broken \cup {<<c[1], c[2]>>}
               /\ cycles' = Append(cycles, c)
   /\ idx' = idx + 1
-  /\ UNCHANGED <<orig, placed, pc, addedAny, nreports>>
+  /\ UNCHANGED <<kind, orig, placed, pc, addedAny, nreports>>
 
 EndBreak ==
   /\ pc = "break" /\ idx > N
   /\ pc' = "start"
-  /\ UNCHANGED <<orig, deps, placed, idx, addedAny, broken, cycles, nreports>>
+  /\ UNCHANGED <<kind, orig, deps, placed, idx, addedAny, broken, cycles, nreports>>
 
 Done == pc = "start" /\ Len(placed) = N
 
@@ -131,15 +165,18 @@ Reach(g, frontier, seen) ==
   ELSE LET nxt == UNION {g[x] : x \in frontier} \ seen IN Reach(g, nxt, seen \cup nxt)
 Cyclic(g) == \E l \in DOMAIN g : l \in Reach(g, {l}, {})
 
-\* each library at most once, and (when finished) every library
+\* the map's keys are exactly the libraries that contribute to the module (function-only ones included)
+KeysAreContributors == Libs = Contributing
+
+\* each contributing library at most once and nothing else; when finished, every contributing library
 Once ==
   /\ \A i, j \in 1..Len(placed) : placed[i] = placed[j] => i = j
-  /\ Range(placed) \subseteq Libs
-  /\ Done => Range(placed) = Libs
+  /\ Range(placed) \subseteq Contributing
+  /\ Done => Range(placed) = Contributing
 
 \* bases first: for every edge the cycle breaker did not remove, the target precedes the source
 BasesFirst ==
-  Done => \A a \in Libs : \A b \in orig[a] :
+  Done => \A a \in Contributing : \A b \in orig[a] :
             <<a, b>> \notin broken => Pos(placed, b) < Pos(placed, a)
 
 ReportIffCyclic == Done => ((nreports > 0) <=> Cyclic(orig))
@@ -153,7 +190,7 @@ CyclesAreCycles ==
       /\ Len(c) >= 2 /\ c[1] = c[Len(c)]
       /\ \A i \in 1..Len(c) - 1 : c[i + 1] \in orig[c[i]]
 \* progress measure: the loop cannot run for ever
-Bounded == nreports <= N * N /\ Cardinality(broken) <= N * N
+Bounded == nreports <= N * N + 1 /\ Cardinality(broken) <= N * N
 
 Terminates == <>Done
 =============================================================================
